@@ -40,7 +40,7 @@ import (
 
 func genCons(a hx.Args) {
 	r := hx.NewRng(a.Seed)
-	n := a.N(120, 2000)
+	n := a.N(300, 3000)
 	for i := 0; i < n; i++ {
 		parts := 1 + r.Intn(4)
 		brokers := 1 + r.Intn(3)
@@ -431,6 +431,11 @@ func runCons(t *testing.T, tk []string) string {
 		switch crng.Intn(12) {
 		case 0, 4:
 			p := int32(crng.Intn(parts))
+			if crng.Chance(60) {
+				// let a fetch of several partitions sit buffered before the pause, so that the next poll has to
+				// strip the paused partition out of an already buffered fetch
+				time.Sleep(time.Duration(100+crng.Intn(300)) * time.Millisecond)
+			}
 			if !paused[p] {
 				co.PauseFetchPartitions(map[string][]int32{"t": {p}})
 				paused[p] = true
